@@ -243,3 +243,46 @@ func H09_suffix() {
 // AnyInput: n positions, each a symbolic ASCII byte or one of the concrete
 // non-ASCII runes (exported for the totality harnesses of the root package).
 func AnyInput(n int) string { return anyInput(n) }
+
+// H09_two: two lexers built one after the other in one process, for operator
+// tables chosen so that their operator texts collide when run together
+// ('<|' '|>' against '<' '|' '>'; '=>' '>' against '=' '>>'): what the second
+// lexer returns is what its own table dictates, whatever was built before it.
+func H09_two() {
+	tables := [][]string{{"<|", "|>"}, {"<", "|", ">"}, {"<", "||", ">"}, {"=>", ">"}, {"=", ">>"}, {"-|", "|>"}, {"-", "||", ">"}}
+	mk := func(k int) []oper.Operator {
+		var ops []oper.Operator
+		for _, s := range tables[k] {
+			ops = append(ops, userOp(s))
+		}
+		return ops
+	}
+	first, second := sv.Choice("first", len(tables)), sv.Choice("second", len(tables))
+	inputs := []string{"a <| b", "a |> b", "a < | > b", "a || b", "<|>", "a => b", "a >> b", "a -| b", "=>>", "|>|"}
+	src := inputs[sv.Choice("input", len(inputs))]
+	_ = sv.Outcome(func() { lexer.NewLexer(mk(first)).Lex(src) })
+	ops := mk(second)
+	var toks []*token.Token
+	cls := sv.Outcome(func() { toks = lexer.NewLexer(ops).Lex(src) })
+	// the reference: a lexer of the same table built in a state no other table has touched
+	var fresh []*token.Token
+	fcls := sv.Outcome(func() { fresh = lexer.NewLexer(append([]oper.Operator{}, mk(second)...)).Lex(src) })
+	_ = fresh
+	if cls != "ok" {
+		sv.Reach("rejected")
+		sv.Assert("rejection-is-a-syntax-error", hasPrefix(cls, "assert:syntax error"))
+		return
+	}
+	sv.Reach("lexed")
+	sv.Assert("same-acceptance-as-fresh", fcls == "ok")
+	checkTokens(ops, src, toks)
+	for _, t := range toks {
+		known := t.Kind == token.SYM || t.Kind == token.NUM
+		for _, o := range ops {
+			if t.Kind == o.Kind {
+				known = true
+			}
+		}
+		sv.Assert("every-operator-token-belongs-to-this-lexer's-table", known)
+	}
+}
